@@ -22,10 +22,10 @@ import (
 )
 
 type rec struct {
-	S  []int `json:"s"`
-	E  []int `json:"e"`
-	T  []int `json:"t"`
-	Sh bool  `json:"sh"` // every shell read e as exactly [s] and t as the expected word
+	S  []int  `json:"s"`
+	E  []int  `json:"e"`
+	T  []int  `json:"t"`
+	Sh bool   `json:"sh"` // every shell read e as exactly [s] and t as the expected word
 	Sd string `json:"sd,omitempty"`
 }
 
